@@ -6,7 +6,7 @@ from hypothesis import strategies as st
 from hgv import tsmodel as tm
 from hgv.runner import Result, Viol
 from hgv.trace import Trace
-from hgv.worker import HarnessError
+from hgv.worker import HarnessError, Rejected
 from props.c05 import norm_delta, tuple_schema
 
 ID = "C04"
@@ -177,7 +177,7 @@ def check(case, ctx) -> Result:
         res.violations.append(Viol("engine_crash", f"worker died: {resp.get('signal')} {resp.get('stderr', '')[-500:]}"))
         return res
     if not resp.get("built"):
-        raise HarnessError(f"C04 generator produced a program the tree rejects: {resp.get('error')}")
+        raise Rejected(f"C04 generator produced a program the tree rejects: {resp.get('error')}")
     if resp.get("error"):
         res.violations.append(Viol("run_failed", f"run() threw on a valid history: {resp['error']}"))
         return res
